@@ -45,7 +45,7 @@ func (s *Shard) deleteObjs(cnr cid.ID, addrs []oid.ID) error {
 		return err // stop on metabase error ?
 	}
 
-	if hasWriteCache {
+	if hasWriteCache && len(res) > len(addrs) { // res is empty if the metabase does not know the container
 		for _, id := range res[len(addrs):] { // the rest are addrs, removed above
 			err := s.writeCache.Delete(oid.NewAddress(cnr, id))
 			if err != nil && !errors.Is(err, apistatus.ErrObjectNotFound) && !errors.Is(err, writecache.ErrReadOnly) {
